@@ -164,7 +164,7 @@ func (s *State) wellTyped(v Term, t types.Type) Term {
 			app("Bool", ">=", app("Int", "s.cap", v), app("Int", "s.len", v)),
 			app("Bool", ">=", app("Int", "s.arr", v), intLit(0)),
 			app("Bool", "<=", app("Int", "s.arr", v), s.alloc),
-			mkImp(mkEq(app("Int", "s.arr", v), intLit(0)), mkEq(app("Int", "s.cap", v), intLit(0))),
+			mkImp(mkEq(app("Int", "s.arr", v), intLit(0)), mkAnd(mkEq(app("Int", "s.cap", v), intLit(0)), mkEq(app("Int", "s.off", v), intLit(0)))),
 		)
 	case *types.Pointer:
 		base := mkAnd(app("Bool", ">=", v, intLit(0)), app("Bool", "<=", v, s.alloc))
@@ -187,8 +187,47 @@ func (s *State) wellTyped(v Term, t types.Type) Term {
 		if u.Info()&types.IsUnsigned != 0 {
 			return app("Bool", ">=", v, intLit(0))
 		}
+	case *types.Struct:
+		// struct values: every field is well typed (type invariants of
+		// pointed-to objects are not unfolded here)
+		if _, ok := s.w.structDT[v.Sort]; !ok {
+			return tTrue
+		}
+		save := s.noTypeInv
+		s.noTypeInv = true
+		var cs []Term
+		for i := 0; i < u.NumFields(); i++ {
+			ft := u.Field(i).Type()
+			switch ft.Underlying().(type) {
+			case *types.Slice, *types.Pointer, *types.Map, *types.Struct, *types.Signature:
+				cs = append(cs, s.wellTyped(s.w.selField(v, i), ft))
+			}
+		}
+		s.noTypeInv = save
+		return mkAnd(cs...)
 	}
 	return tTrue
+}
+
+// constArray is the array that maps every key to v. SMT-LIB's (as const ..)
+// needs a value; for other terms a fresh array constant is constrained by a
+// quantified equation.
+func (s *State) constArray(ks string, v Term) Term {
+	sort := arraySort(ks, v.Sort)
+	if isValueTerm(v.S) {
+		return Term{fmt.Sprintf("((as const %s) %s)", sortText(sort), v.S), sort}
+	}
+	c := s.fresh("carr", sort)
+	s.assume(Term{fmt.Sprintf("(forall ((k!c %s)) (! (= (select %s k!c) %s) :pattern ((select %s k!c))))", sortText(ks), c.S, v.S, c.S), "Bool"})
+	return c
+}
+
+func isValueTerm(t string) bool {
+	switch t {
+	case "0", "false", "true", "any.nil", "slice.nil", "(mk.slice 0 0 0 0)":
+		return true
+	}
+	return false
 }
 
 // ---- pointers ----
@@ -652,7 +691,7 @@ func (x *Exec) step(s *State, in ssa.Instruction) bool {
 			at := elem.Underlying().(*types.Array)
 			arr := w.elemArray(at.Elem())
 			zs := w.zeroOf(at.Elem())
-			row := Term{fmt.Sprintf("((as const %s) %s)", sortText(arraySort("Int", zs.Sort)), zs.S), arraySort("Int", zs.Sort)}
+			row := s.constArray("Int", zs)
 			s.setH(arr, mkStore(s.H(arr), r, row))
 		}
 		s.set(v, p)
@@ -721,7 +760,7 @@ func (x *Exec) step(s *State, in ssa.Instruction) bool {
 		emp := Term{fmt.Sprintf("((as const %s) false)", sortText(arraySort(ks, "Bool"))), arraySort(ks, "Bool")}
 		s.setH(dom, mkStore(s.H(dom), r, emp))
 		zv := w.zeroOf(mt.Elem())
-		zarr := Term{fmt.Sprintf("((as const %s) %s)", sortText(arraySort(ks, zv.Sort)), zv.S), arraySort(ks, zv.Sort)}
+		zarr := s.constArray(ks, zv)
 		s.setH(val, mkStore(s.H(val), r, zarr))
 		s.set(v, r)
 		return adv()
@@ -733,7 +772,7 @@ func (x *Exec) step(s *State, in ssa.Instruction) bool {
 		et := v.Type().Underlying().(*types.Slice).Elem()
 		arr := w.elemArray(et)
 		zs := w.zeroOf(et)
-		row := Term{fmt.Sprintf("((as const %s) %s)", sortText(arraySort("Int", zs.Sort)), zs.S), arraySort("Int", zs.Sort)}
+		row := s.constArray("Int", zs)
 		s.setH(arr, mkStore(s.H(arr), r, row))
 		s.set(v, mkSlice(r, intLit(0), ln, cp))
 		return adv()
@@ -961,7 +1000,7 @@ func (x *Exec) binop(s *State, v *ssa.BinOp) {
 		s.set(v, app("Bool", op, a, b))
 	case token.ADD:
 		if a.Sort == sortStr {
-			s.set(v, app(sortStr, "str.cat", a, b))
+			s.set(v, app(sortStr, "strcat!", a, b))
 			return
 		}
 		s.set(v, add(a, b))
